@@ -626,7 +626,7 @@ Proof.
     inversion Hnd; subst. simpl. rewrite (IH H2). reflexivity. }
   unfold prop_C01, run_C01, dec_in. rewrite Hc. simpl map. unfold dec_op.
   destruct (Z.leb_spec 0 (Z.of_nat k)); [|lia]. destruct (Z.leb_spec (Z.of_nat k) max_k); [|lia]. simpl andb. cbv iota.
-  simpl all_some. rewrite Nat2Z.id. simpl run_ops.
+  simpl all_some. cbn [existsb is_ss_op orb]. cbv iota. rewrite Nat2Z.id. simpl run_ops.
   destruct (picks_by swrr_pick (init conf) k) as [l bs'] eqn:Ep. simpl map.
   assert (Hl : length l = k).
   { assert (G : forall k bs, length (fst (picks_by swrr_pick bs k)) = k).
@@ -639,4 +639,159 @@ Proof.
   { unfold as_LZ, vLZ. rewrite map_map. simpl. clear. induction l as [|x r IH]; [reflexivity|]. simpl. rewrite IH. reflexivity. }
   unfold as_LZ, vLZ in Hz. rewrite Hz. simpl all_some. simpl spec_ops. cbv iota. rewrite Hl, Nat.eqb_refl. simpl andb.
   pose proof (fresh_run_segment_ok conf k Hnd) as Hs. rewrite Ep in Hs. exact Hs.
+Qed.
+
+(* ================================================================ slow start *)
+Definition ss_wf (x : sb) : Prop := 0 <= ss_el (snd x) /\ 0 <= ss_T (snd x).
+(* outside a ramp the effective weight is the target weight (= 100 x configured weight) *)
+Definition ss_inv (x : sb) : Prop := ss_in (snd x) = false -> b_w (fst x) = ss_final (snd x).
+(* a backend whose target weight is not positive never has a positive effective weight *)
+Definition ss_inv3 (x : sb) : Prop := ss_final (snd x) <= 0 -> b_w (fst x) <= 0.
+
+Definition ramp (fin e sT : Z) : Z := if sT =? 0 then fin else Z.quot (fin * e) (1000 * sT).
+Definition ss_active (x : sb) : bool := ss_rs (snd x) || ss_in (snd x).
+Definition ss_e1 (x : sb) : Z := if ss_rs (snd x) then 0 else ss_el (snd x).
+Definition ss_T1 (T : Z) (x : sb) : Z := if ss_rs (snd x) then T else ss_T (snd x).
+
+Lemma check_one_w T x : b_w (fst (check_one T x)) =
+  if ss_active x then (let wt := ramp (ss_final (snd x)) (ss_e1 x) (ss_T1 T x) in if wt >=? ss_final (snd x) then ss_final (snd x) else wt)
+  else b_w (fst x).
+Proof.
+  destruct x as [[[[id w] c] av] [[[[fin inss] e] rs] sT]]. unfold check_one, ss_active, ss_e1, ss_T1, ramp. simpl.
+  destruct rs; simpl; [|destruct inss; simpl; [|reflexivity]];
+    match goal with |- context [if ?a >=? fin then _ else _] => destruct (a >=? fin) end; reflexivity.
+Qed.
+Lemma check_one_in T x : ss_in (snd (check_one T x)) =
+  if ss_active x then negb (ramp (ss_final (snd x)) (ss_e1 x) (ss_T1 T x) >=? ss_final (snd x)) else false.
+Proof.
+  destruct x as [[[[id w] c] av] [[[[fin inss] e] rs] sT]]. unfold check_one, ss_active, ss_e1, ss_T1, ramp. simpl.
+  destruct rs; simpl; [|destruct inss; simpl; [|reflexivity]];
+    match goal with |- context [if ?a >=? fin then _ else _] => destruct (a >=? fin) end; reflexivity.
+Qed.
+Lemma check_one_rest T x :
+  ss_final (snd (check_one T x)) = ss_final (snd x) /\ ss_el (snd (check_one T x)) = ss_e1 x /\
+  ss_T (snd (check_one T x)) = ss_T1 T x /\ ss_rs (snd (check_one T x)) = false /\
+  b_id (fst (check_one T x)) = b_id (fst x) /\ b_av (fst (check_one T x)) = b_av (fst x).
+Proof.
+  destruct x as [[[[id w] c] av] [[[[fin inss] e] rs] sT]]. unfold check_one, ss_e1, ss_T1. simpl.
+  destruct rs; simpl; [|destruct inss; simpl; [|repeat split]];
+    match goal with |- context [if ?a >=? fin then _ else _] => destruct (a >=? fin) end; repeat split.
+Qed.
+
+(* when a ramp ends (inSlowStart becomes false) the weight is exactly the target weight *)
+Lemma check_one_finished T x :
+  ss_active x = true -> ss_in (snd (check_one T x)) = false ->
+  b_w (fst (check_one T x)) = ss_final (snd (check_one T x)).
+Proof.
+  intros Ha Hf. rewrite check_one_in, Ha in Hf. destruct (check_one_rest T x) as [F _]. rewrite F, check_one_w, Ha.
+  cbv zeta. destruct (_ >=? ss_final (snd x)); [reflexivity|discriminate].
+Qed.
+Lemma check_one_inv T x : ss_inv x -> ss_inv (check_one T x).
+Proof.
+  intros Hinv Hf. destruct (ss_active x) eqn:Ea; [apply check_one_finished; assumption|].
+  destruct (check_one_rest T x) as [F _]. rewrite F, check_one_w, Ea. apply Hinv.
+  unfold ss_active in Ea. apply orb_false_iff in Ea. tauto.
+Qed.
+
+Lemma ramp_bounds fin e sT : 0 < fin -> 0 <= e -> 0 <= sT -> 0 <= ramp fin e sT.
+Proof.
+  intros. unfold ramp. destruct (Z.eqb_spec sT 0); [lia|]. apply Z.quot_pos; nia.
+Qed.
+(* during a ramp with a positive target the weight stays within [0, target] *)
+Lemma check_one_ramp_bounds T x : 0 <= T -> ss_wf x -> 0 < ss_final (snd x) -> ss_active x = true ->
+  0 <= b_w (fst (check_one T x)) <= ss_final (snd x).
+Proof.
+  intros HT [He Hs] Hf Ha. rewrite check_one_w, Ha. cbv zeta.
+  assert (0 <= ramp (ss_final (snd x)) (ss_e1 x) (ss_T1 T x)).
+  { apply ramp_bounds; [exact Hf| |]; unfold ss_e1, ss_T1; destruct (ss_rs (snd x)); lia. }
+  destruct (Z.geb_spec (ramp (ss_final (snd x)) (ss_e1 x) (ss_T1 T x)) (ss_final (snd x))); lia.
+Qed.
+(* target <= 0: the effective weight never becomes positive *)
+Lemma check_one_inv3 T x : ss_inv3 x -> ss_inv3 (check_one T x).
+Proof.
+  intros Hinv. unfold ss_inv3. destruct (check_one_rest T x) as [F _]. rewrite F, check_one_w. intros Hf.
+  destruct (ss_active x); [|apply Hinv; exact Hf]. cbv zeta.
+  destruct (Z.geb_spec (ramp (ss_final (snd x)) (ss_e1 x) (ss_T1 T x)) (ss_final (snd x))); lia.
+Qed.
+Lemma check_one_wf T x : 0 <= T -> ss_wf x -> ss_wf (check_one T x).
+Proof.
+  intros HT [He Hs]. unfold ss_wf. destruct (check_one_rest T x) as [_ [F1 [F2 _]]]. rewrite F1, F2.
+  unfold ss_e1, ss_T1. destruct (ss_rs (snd x)); lia.
+Qed.
+
+(* ---- the invariant along histories *)
+Definition ss_good (x : sb) : Prop := ss_wf x /\ ss_inv x /\ ss_inv3 x.
+Lemma check_ss_good T l : 0 <= T -> Forall ss_good l -> Forall ss_good (check_ss T l).
+Proof.
+  intros HT H. unfold check_ss. destruct (0 <? T); [|exact H]. apply Forall_forall. intros y Hy.
+  apply in_map_iff in Hy. destruct Hy as [x [E Hx]]. subst y. rewrite Forall_forall in H. destruct (H x Hx) as [A [B C]].
+  split; [apply check_one_wf; assumption|]. split; [apply check_one_inv; assumption|apply check_one_inv3; assumption].
+Qed.
+Lemma init2_good conf : Forall ss_good (init2 conf).
+Proof.
+  apply Forall_forall. intros y Hy. apply in_map_iff in Hy. destruct Hy as [[i w] [E _]]. subst y.
+  unfold ss_good, ss_wf, ss_inv, ss_inv3. simpl. repeat split; try lia.
+Qed.
+Lemma update2_good l conf : Forall ss_good l -> Forall ss_good (update2 l conf).
+Proof.
+  intros H. unfold update2. apply Forall_app. split.
+  - apply Forall_forall. intros y Hy. apply in_flat_map in Hy. destruct Hy as [x [Hx Hy]].
+    destruct (lookup (b_id (fst x)) conf) as [w|]; [|contradiction]. destruct Hy as [Hy|[]]. subst y.
+    rewrite Forall_forall in H. destruct (H x Hx) as [[A1 A2] _].
+    destruct x as [[[[id w0] c] av] [[[[fin inss] e] rs] sT]]. unfold ss_good, ss_wf, ss_inv, ss_inv3. simpl in *.
+    repeat split; try lia.
+  - apply Forall_forall. intros y Hy. apply in_map_iff in Hy. destruct Hy as [[i w] [E _]]. subst y.
+    unfold ss_good, ss_wf, ss_inv, ss_inv3. simpl. repeat split; try lia.
+Qed.
+Lemma on_id_good id f l : (forall x, ss_good x -> ss_good (f x)) -> Forall ss_good l -> Forall ss_good (on_id id f l).
+Proof.
+  intros Hf H. unfold on_id. apply Forall_forall. intros y Hy. apply in_map_iff in Hy. destruct Hy as [x [E Hx]]. subst y.
+  rewrite Forall_forall in H. destruct (b_id (fst x) =? id); [apply Hf|]; apply H; exact Hx.
+Qed.
+Lemma apply_op2_good T l o : 0 <= T -> Forall ss_good l ->
+  (match o with OSetSS t => 0 <= t | OElapsed _ e => 0 <= e | _ => True end) ->
+  0 <= fst (apply_op2 (T, l) o) /\ Forall ss_good (snd (apply_op2 (T, l) o)).
+Proof.
+  intros HT H Ho. destruct o as [k|conf|id a|t|id e|id]; simpl; split; try assumption.
+  - apply update2_good; exact H.
+  - apply on_id_good; [|exact H]. intros [[[[i w] c] av] s] G. exact G.
+  - apply on_id_good; [|exact H]. intros [b [[[[fin inss] e0] rs] sT]] [[A1 A2] [B C]].
+    unfold ss_good, ss_wf, ss_inv, ss_inv3 in *. simpl in *. repeat split; try assumption.
+  - apply on_id_good; [|exact H]. intros [b [[[[fin inss] e0] rs] sT]] G. exact G.
+Qed.
+
+(* a balance algorithm that returns an eligible backend of its list and only changes credits *)
+Definition bal_ok (bal : list backend -> option (Z * list backend)) : Prop :=
+  (forall bs p upd, bal bs = Some (p, upd) ->
+     (exists b, In b bs /\ elig b = true /\ b_id b = p) /\ map bcfg upd = map bcfg bs) /\
+  (forall bs, bal bs = None <-> filter elig bs = []).
+Lemma smooth_bal_ok : bal_ok smooth.
+Proof. split; [exact smooth_some|exact smooth_none]. Qed.
+
+Lemma combine_good : forall (l1 : list sb) upd, map bcfg upd = map bcfg (map fst l1) -> Forall ss_good l1 ->
+  Forall ss_good (combine upd (map snd l1)).
+Proof.
+  induction l1 as [|[b s] r IH]; intros [|u upd] H G; simpl in *; try discriminate; try constructor.
+  - assert (H1 : bcfg u = bcfg b) by congruence. inversion G as [|? ? G1 G2]; subst.
+    unfold bcfg in H1. inversion H1 as [[Hi Hw Ha]].
+    destruct G1 as [A [B C]]. unfold ss_good, ss_wf, ss_inv, ss_inv3 in *. simpl in *. rewrite Hw. tauto.
+  - inversion G; subst. apply IH; [congruence|assumption].
+Qed.
+
+(* One Balance call with slow start in any reachable state: the state stays good; -1 is returned iff no backend is
+   eligible after checkSlowStart; otherwise the pick is an available backend whose effective AND target (configured)
+   weights are positive. *)
+Theorem pick2_spec bal T l p l' : bal_ok bal -> 0 <= T -> Forall ss_good l -> pick2 bal T l = (p, l') ->
+  Forall ss_good l' /\
+  ((p = -1 /\ filter elig (map fst (check_ss T l)) = []) \/
+   (exists x, In x (check_ss T l) /\ b_id (fst x) = p /\ sb_ok x = true)).
+Proof.
+  intros [Hs Hn] HT G. unfold pick2. pose proof (check_ss_good T l HT G) as G1.
+  destruct (bal (map fst (check_ss T l))) as [[q upd]|] eqn:E; intros H; inversion H; subst; clear H.
+  - destruct (Hs _ _ _ E) as [[b [Hb [He Hid]]] Hc]. split; [apply combine_good; assumption|]. right.
+    apply in_map_iff in Hb. destruct Hb as [x [Ex Hx]]. subst b. exists x. split; [exact Hx|]. split; [exact Hid|].
+    unfold sb_ok. rewrite He. simpl. rewrite Forall_forall in G1. destruct (G1 x Hx) as [_ [_ C]].
+    apply Z.ltb_lt. destruct (Z_lt_le_dec 0 (ss_final (snd x))) as [Hp|Hp]; [exact Hp|]. specialize (C Hp).
+    unfold elig in He. apply andb_true_iff in He. destruct He as [_ He]. apply Z.ltb_lt in He. lia.
+  - split; [exact G1|]. left. split; [reflexivity|]. apply Hn. exact E.
 Qed.
